@@ -39,7 +39,9 @@ def simulate_docs(ctx, num, maxtok=40, maxdepth=6, maxlist=3, jvms=None, depth=3
 
 
 STR_ATOMS = ["a", "b", "Z", "0", "9", " ", ".", ",", "-", "_", "/", ":", "&", "<", ">", '"', "'", "é", "€", "漢", "😀", "%", "]", "[", "=", "+",
-             "{", "}"]
+             "{", "}",
+             # text that Unicode normalisation would change (decomposed / compatibility characters) is data like any other
+             "e\u0301", "\u2126", "\u212b", "\u1100\u1161"]
 # interior line breaks / tabs / runs of blanks: legal character data when READING a document (C03); not part of
 # the "printable" strings the writing properties (C01, C11) quantify over
 MULTILINE_ATOMS = ["\r\n", "\n", "\r", "\t", "  "]
